@@ -134,6 +134,13 @@ C14Step ==
         /\ Pattern(Res) = Pattern(Src) => Identical(Res, Src)
 C14Prop == [][C14Step]_vars
 
+(* ---- C05 / C06 ---------------------------------------------------------*)
+(* decoding the encoding of any envelope held in a register gives it back *)
+C05RoundTrip == \A r \in Full : DecodeTagged(Tagged(reg[r])) = Ok(reg[r])
+(* whatever the decoder accepts re-encodes to the very input (modulo the #6.24 alias) *)
+C06Step == (Op = "decode_wire" /\ OkStep) => Tagged(Res) = Alias24(Arg(1))
+C06Prop == [][C06Step]_vars
+
 (* ---- C07 ---------------------------------------------------------------*)
 C07Laws ==
   \A r1 \in Full, r2 \in Full, r3 \in Full :
